@@ -60,7 +60,7 @@ res["demo_passes_without_change"] = rc == 0
 res["ran"].append("cargo test --offline --test demo (clean)")
 git_clean()
 # store
-dst = os.path.join(ROOT, "seeded", "%s-%s" % (pid, k))
+dst = os.path.join(ROOT, "seeded", "%s-%s" % (pid, int(k) + int(os.environ.get("SEED_OFFSET", "0"))))
 os.makedirs(dst, exist_ok=True)
 shutil.copy(os.path.join(out, "patch.diff"), os.path.join(dst, "patch.diff"))
 shutil.copy(os.path.join(out, "demo.rs"), os.path.join(dst, "demo.rs"))
@@ -68,6 +68,8 @@ meta = json.load(open(os.path.join(out, "meta.json")))
 meta["confirmed_by_me"] = res
 meta["detected_by"] = [p for p, d in det.items() if d["exit"] == 1]
 meta["undecided_by"] = [p for p, d in det.items() if d["exit"] == 2]
+if extra:
+    meta["also_check"] = extra
 json.dump(meta, open(os.path.join(dst, "meta.json"), "w"), indent=1, ensure_ascii=False)
 print(pid, k, "tests_pass=%s demo_fail=%s demo_pass_clean=%s" % (res["existing_tests_pass_with_change"], res["demo_fails_with_change"], res["demo_passes_without_change"]),
       {p: (d["exit"], d["lines"][:2]) for p, d in det.items()})
